@@ -466,9 +466,41 @@ def txt(ctx: Any) -> List[Ob]:
                 if isinstance(inner, ast.Call) and norm(inner.func) == 'len' and norm(inner.args[0]) == norm(el[i + 1]):
                     pref_ok = True
     obs.append(ob(R, w, 'bytes((len(item),)) + item', 'writer prefixes every item with its one-byte length', pref_ok))
-    seps = [n for n in walk_local_ordered(w.node) if isinstance(n, ast.Constant) and n.value == b'=']
-    none_guard = [n for n in walk_local_ordered(w.node) if isinstance(n, ast.If) and isinstance(n.test, ast.Compare) and isinstance(n.test.ops[0], ast.IsNot) and isinstance(n.test.comparators[0], ast.Constant) and n.test.comparators[0].value is None and any(isinstance(x, ast.Constant) and x.value == b'=' for x in ast.walk(n))]
-    obs.append(ob(R, w, "record += b'=' + value", 'writer separates key and value with `=` only when a value is present', len(seps) == 1 and len(none_guard) == 1))
+    # `=` is written exactly when a value is present (None = key only; an EMPTY value still gets its `=`): in the writer's flow
+    # graph the statement that appends `=` is reached only through the live edge of a `value is None` test, nothing between that
+    # edge and the end of the iteration can go round it, and the `=` is not under a conditional inside the statement
+    cfgs = cfg_of(w.node)
+    sep_nodes = [n for n in cfgs.nodes if n.ast is not None and n.kind in ('stmt', 'return') and any(isinstance(x, ast.Constant) and x.value == b'=' for x in ast.walk(n.ast))]
+    sep_ok, sep_why = False, ''
+    if len(sep_nodes) != 1:
+        sep_why = f'{len(sep_nodes)} statements write the separator'
+    else:
+        S = sep_nodes[0]
+        cond = [x for x in ast.walk(S.ast) if isinstance(x, (ast.IfExp, ast.BoolOp)) and any(isinstance(y, ast.Constant) and y.value == b'=' for y in ast.walk(x))]
+        tests = []
+        for t in cfgs.nodes:
+            if t.kind != 'test' or t.ast is None:
+                continue
+            e, flip = t.ast, False
+            while isinstance(e, ast.UnaryOp) and isinstance(e.op, ast.Not):
+                e, flip = e.operand, not flip
+            if isinstance(e, ast.Compare) and len(e.ops) == 1 and isinstance(e.ops[0], (ast.Is, ast.IsNot)) and isinstance(e.comparators[0], ast.Constant) and e.comparators[0].value is None:
+                live = isinstance(e.ops[0], ast.IsNot)
+                tests.append((t, live != flip))
+        guard = next(((t, lv) for t, lv in tests if cfgs.only_through_edge(t, lv, S)), None)
+        if cond:
+            sep_why = 'the separator is written under a condition inside the statement: ' + norm(cond[0])[:80]
+        elif guard is None:
+            sep_why = 'the statement writing the separator is not reached exactly through the `value is not None` edge'
+        else:
+            t, lv = guard
+            skip = None
+            for s2, lab in t.succ:
+                if lab == lv and s2 is not S:
+                    skip = skip or cfgs.path_avoiding(s2, lambda n: n.kind == 'for' or n is cfgs.exit, lambda n: n is S, skip_start=False)
+            sep_ok = skip is None
+            sep_why = '' if sep_ok else f'a value that is not None can reach the end of the iteration without its `=` (through line {skip[0].line})'
+    obs.append(ob(R, w, sep_nodes[0].ast if len(sep_nodes) == 1 else "record += b'=' + value", 'writer separates key and value with `=` exactly when a value is present (None: key only; an empty value keeps its `=`)', sep_ok, sep_why))
     # the caller's dict may be kept as the decoded properties only if nothing in it had to be converted to bytes
     me_w = w.params[0]
     reuse = [n for n in walk_local_ordered(w.node) if isinstance(n, ast.Assign) and self_attr(n.targets[0], me_w) == '_properties' and norm(n.value) == w.params[1]]
